@@ -87,6 +87,10 @@ func (s *State) Get(key StoreKey) ([]byte, error) {
 		// Get the txSession first
 		result, err := s.txSession.Get(key)
 		if err == nil {
+			if bytes.Equal(result, []byte(TOMBSTONE)) {
+				// deleted in this session: absent, like a key missing from the tree
+				return nil, nil
+			}
 			// if got result, return directly
 			return result, err
 		}
@@ -95,6 +99,10 @@ func (s *State) Get(key StoreKey) ([]byte, error) {
 	// Get the cache first
 	result, err := s.cache.Get(key)
 	if err == nil {
+		if bytes.Equal(result, []byte(TOMBSTONE)) {
+			// deleted earlier in this block
+			return nil, nil
+		}
 		// if got result, return directly
 		return result, err
 	}
@@ -115,10 +123,9 @@ func (s *State) Set(key StoreKey, value []byte) error {
 func (s *State) Exists(key StoreKey) bool {
 
 	if s.txSession != nil {
-		// check existence in txSession
-		exist := s.txSession.Exists(key)
-		if exist {
-			return exist
+		// check existence in txSession (a tombstone there means deleted in this session)
+		if value, err := s.txSession.Get(key); err == nil {
+			return !bytes.Equal(value, []byte(TOMBSTONE))
 		}
 	}
 
@@ -128,8 +135,23 @@ func (s *State) Exists(key StoreKey) bool {
 		// if not existed in cache, check ChainState
 		return s.cs.Exists(key)
 	}
+	// the cache holds deletions of this block as tombstones (looked at without metering)
+	if value, err := s.rawCache().Get(key); err == nil && bytes.Equal(value, []byte(TOMBSTONE)) {
+		return false
+	}
 
 	return exist
+}
+
+// rawCache returns the block cache without its gas metering wrapper.
+func (s *State) rawCache() SessionedDirectStorage {
+	switch c := s.cache.(type) {
+	case *GasStore:
+		return c.SessionedDirectStorage
+	case *NoGasStore:
+		return c.SessionedDirectStorage
+	}
+	return s.cache
 }
 
 func (s *State) Delete(key StoreKey) (bool, error) {
